@@ -54,6 +54,45 @@ func c11Same(what string, used, fresh c11Outcome) string {
 	return ""
 }
 
+// scribbleBytes flips the first octet of every []byte reachable from v.
+func scribbleBytes(v reflect.Value, depth int, seen map[uintptr]bool) {
+	if !v.IsValid() || depth > 30 {
+		return
+	}
+	switch v.Kind() {
+	case reflect.Interface:
+		if !v.IsNil() {
+			scribbleBytes(v.Elem(), depth+1, seen)
+		}
+	case reflect.Ptr:
+		if !v.IsNil() && !seen[v.Pointer()] {
+			seen[v.Pointer()] = true
+			scribbleBytes(v.Elem(), depth+1, seen)
+		}
+	case reflect.Struct:
+		if v.Type() == zoo.TimeType {
+			return
+		}
+		for i := 0; i < v.NumField(); i++ {
+			scribbleBytes(v.Field(i), depth+1, seen)
+		}
+	case reflect.Slice:
+		if v.Type().Elem().Kind() == reflect.Uint8 {
+			if v.Len() > 0 && v.Index(0).CanSet() {
+				v.Index(0).SetUint(uint64(^uint8(v.Index(0).Uint())))
+			}
+			return
+		}
+		for i := 0; i < v.Len() && i < 50; i++ {
+			scribbleBytes(v.Index(i), depth+1, seen)
+		}
+	case reflect.Map:
+		for it := v.MapRange(); it.Next(); {
+			scribbleBytes(it.Value(), depth+1, seen)
+		}
+	}
+}
+
 func sortedNames(m map[string]string) []string {
 	out := make([]string, 0, len(m))
 	for k := range m {
@@ -82,12 +121,15 @@ var c11Leavers = [][]byte{
 	unhex("58 92 91"),                      // list of two, one element present
 	unhex("48 0161"),                       // map: a key, then the end of the input
 	unhex("56 07 5b6e6f73756368 91 90"),    // 'V' typed list of the unregistered type
+	unhex("52 0002 6162 90"),               // a non-final string chunk followed by something that is not a chunk
+	unhex("58 92 52 0003 787878 4e"),       // the same inside a list
 }
-var c11Pair = []int{0, 0, 1, 1, 2, 2, 0}
+var c11Pair = []int{0, 0, 1, 1, 2, 2, 0, 3, 3}
 var c11Sensitive = [][]byte{
 	unhex("58 92 72 04 5b696e74 90 91 73 90 92 93 94"), // the second typed list names its type by reference #0
 	unhex("60 91"), // instance of class #0, no definition in this message
 	unhex("51 90"), // reference #0, no container in this message
+	unhex("58 92 03 616263 52 0001 64 01 65"), // strings, one of them in two chunks: whatever is left of an earlier string shows
 }
 
 func TestC11(t *testing.T) {
@@ -155,13 +197,21 @@ func TestC11(t *testing.T) {
 		// under their Go names, lists untyped; the instance enters what it learns into its map, which must not
 		// make it behave differently from a new one)
 		noNames := (kind == "Serializer" || kind == "Encoder") && rapid.IntRange(0, 3).Draw(rt, "withoutNames") == 0
+		// a list of strings that goes by the name of a Java set class
+		if !noNames && rapid.IntRange(0, 3).Draw(rt, "stringListAsSet") == 0 {
+			vals = append(vals, []string{"red", "red", "green", "blue", "green"})
+			descs = append(descs, "special []string named java.util.HashSet")
+			nm["[]string"] = "java.util.HashSet"
+			tm["java.util.HashSet"] = reflect.TypeOf([]string{})
+		}
+		fullNM := nm // the messages to be decoded come from a peer that uses every name
 		if noNames {
 			nm = map[string]string{}
 		}
 		// reference encodings (fresh instance each) of every value
 		enc := make([][]byte, len(vals))
 		for i, v := range vals {
-			b, err := hessian.ToBytes(v, copyNames(nm)) // (a copy: in the mode without names the encoder fills its map)
+			b, err := hessian.ToBytes(v, copyNames(fullNM))
 			if err != nil {
 				rt.Skip("value does not encode (C01's subject)")
 			}
@@ -348,21 +398,27 @@ func TestC11(t *testing.T) {
 						ser.ReadFrom(shared)
 					case kind == "Serializer":
 						o, _ := ser.ToObject(in)
+						// (what the caller does to the value it was handed is its own business: the input must not feel it)
+						scribbleBytes(reflect.ValueOf(o), 0, map[uintptr]bool{})
 						holdValue(fmt.Sprintf("value of decode #%d", len(hist)), o)
 					case kind == "Decoder" && viaShared:
 						shared.b, shared.pos = in, 0
 						d.ReadFrom(shared)
 					case kind == "Decoder":
 						o, _ := d.Decode(in)
+						// (what the caller does to the value it was handed is its own business: the input must not feel it)
+						scribbleBytes(reflect.ValueOf(o), 0, map[uintptr]bool{})
 						holdValue(fmt.Sprintf("value of decode #%d", len(hist)), o)
 					case kind == "Package":
 						o, _ := hessian.ToObject(in, tm)
+						// (what the caller does to the value it was handed is its own business: the input must not feel it)
+						scribbleBytes(reflect.ValueOf(o), 0, map[uintptr]bool{})
 						holdValue(fmt.Sprintf("value of ToObject #%d", len(hist)), o)
 					default:
 						return
 					}
 					if !bytes.Equal(in, enc[vi]) {
-						failf(rt, c, "C11 %s: decoding modified the bytes being decoded", kind)
+						failf(rt, c, "C11 %s: decoding modified the bytes being decoded, or the decoded value shares memory with them (a []byte of the result was written to)", kind)
 					}
 					note("decode-ok", vi)
 				case act == 3: // decode of garbage
